@@ -23,3 +23,25 @@ func simUnlock(m *Mutex) {
 		h(m)
 	}
 }
+
+// SimAcquireHook / SimReleaseHook are called by lock sites that the simulator
+// instrumented at build time (compile-time overlay of selected files): before
+// a sync.Mutex / sync.RWMutex is acquired ('w' or 'r') and after it has been
+// released. l is the address of the lock expression. Nothing in the
+// repository itself calls SimAcquire / SimRelease.
+var (
+	SimAcquireHook func(l interface{}, mode byte, site string)
+	SimReleaseHook func(l interface{}, mode byte, site string)
+)
+
+func SimAcquire(l interface{}, mode byte, site string) {
+	if h := SimAcquireHook; h != nil {
+		h(l, mode, site)
+	}
+}
+
+func SimRelease(l interface{}, mode byte, site string) {
+	if h := SimReleaseHook; h != nil {
+		h(l, mode, site)
+	}
+}
